@@ -228,6 +228,9 @@ class State:
                         vals = 1000.0 * stamp + idx + 1.0
                         arg = vals.copy()
                         es.set_variable_values(arg, f, additive=additive, **kw[loc])
+                        if not np.array_equal(arg, vals):
+                            self.bad("set_variable_values modified its argument", subset=[list(s) for s in sub])
+                            return
                         arg[:] = -777.0
                         if additive:
                             ref[loc][idx] += vals
